@@ -238,6 +238,12 @@ def safe_route(lg, route, seed=0):
 
 def coq_term(lg, route, out):
     n = C.cnat(lg.n)
+    # same comparison class as the direct oracle: 1e-7 * max(1, |result|_inf) for the mean routes
+    # (absolute 1e-7 for the covariance identities, whose entries are O(1))
+    import math
+    scale = max(1, int(math.ceil(float(np.abs(np.asarray(out, dtype=np.float64)).max())))) \
+        if route not in ("re.T", "cl.T.kl", "cl.T.wfc") else 1
+    TOLQ = C.cq(Fr(scale, 10 ** 7))
     R, Ninv, N, d = qm(lg.R), qm(lg.Ninv), qm(lg.N), qv(lg.d)
     if route in ("re.wf.signal", "re.wf.absdelta"):
         return "corr_signal %s %s %s %s %s %s" % (TOLQ, n, R, Ninv, d, fv(out))
